@@ -995,3 +995,531 @@ Example gen_trace_example :
      EGenerate op_get; EGenerate op_post; EOp (OUnregister 0 21%N); EGenerate op_get]
   = [[[]; []; []; []; []; []]; [[]; [(KMap, 21%N)]; []; []; []; []]; [[]; []; []; []; []; []]; [[]; []; []; []; []; []]].
 Proof. vm_compute. reflexivity. Qed.
+
+(* ====================================================================================== *)
+(* Part F: the ledger - every REGISTRATION applies where its own chain says               *)
+(* ====================================================================================== *)
+(* ---------- boolean equalities reflect equality ---------- *)
+Lemma attr_eqb_eq a b : attr_eqb a b = true -> a = b.
+Proof. destruct a, b; cbn; intros H; try discriminate; reflexivity. Qed.
+
+Lemma strs_eqb_eq a : forall b, strs_eqb a b = true -> a = b.
+Proof.
+  induction a as [|x a IH]; intros [|y b] H; cbn in H; try discriminate; [reflexivity|].
+  apply andb_true_iff in H. destruct H as [H1 H2]. apply str_eqb_spec in H1. rewrite H1, (IH b H2). reflexivity.
+Qed.
+
+Lemma strs_eqb_refl a : strs_eqb a a = true.
+Proof. induction a as [|x a IH]; cbn; [reflexivity|]. rewrite str_eqb_refl, IH. reflexivity. Qed.
+
+Lemma expected_eqb_eq a b : expected_eqb a b = true -> a = b.
+Proof.
+  destruct a as [x|x], b as [y|y]; cbn; intros H; try discriminate.
+  - apply str_eqb_spec in H. congruence.
+  - apply strs_eqb_eq in H. congruence.
+Qed.
+
+Lemma matcher_beq_eq a b : matcher_beq a b = true -> a = b.
+Proof.
+  destruct a as [a e|[i t]], b as [a' e'|[i' t']]; cbn; intros H; try discriminate.
+  - apply andb_true_iff in H. destruct H as [H1 H2]. rewrite (attr_eqb_eq _ _ H1), (expected_eqb_eq _ _ H2). reflexivity.
+  - unfold opaque_beq in H. cbn in H. apply andb_true_iff in H. destruct H as [H1 H2].
+    apply N.eqb_eq in H1. apply str_eqb_spec in H2. congruence.
+Qed.
+
+Lemma matcher_beq_refl a : matcher_beq a a = true.
+Proof.
+  destruct a as [a e|[i t]]; cbn.
+  - assert (attr_eqb a a = true) as -> by (destruct a; reflexivity).
+    destruct e; cbn; [apply str_eqb_refl | apply strs_eqb_refl].
+  - unfold opaque_beq; cbn. rewrite N.eqb_refl, str_eqb_refl. reflexivity.
+Qed.
+
+Lemma list_beq_eq {A} (eq : A -> A -> bool) : (forall x y, eq x y = true -> x = y) ->
+  forall a b, list_beq eq a b = true -> a = b.
+Proof.
+  intros Heq. induction a as [|x a IH]; intros [|y b] H; cbn in H; try discriminate; [reflexivity|].
+  apply andb_true_iff in H. destruct H as [H1 H2]. rewrite (Heq _ _ H1), (IH b H2). reflexivity.
+Qed.
+
+Lemma list_beq_refl {A} (eq : A -> A -> bool) : (forall x, eq x x = true) -> forall a, list_beq eq a a = true.
+Proof. intros H. induction a as [|x a IH]; cbn; [reflexivity|]. rewrite H, IH. reflexivity. Qed.
+
+Lemma fset_beq_eq a b : fset_beq a b = true -> a = b.
+Proof.
+  unfold fset_beq. intros H. apply andb_true_iff in H. destruct H as [H1 H2].
+  assert (Hf : forall x y, flt_beq x y = true -> x = y) by (apply list_beq_eq; exact matcher_beq_eq).
+  apply (list_beq_eq _ Hf) in H1. apply (list_beq_eq _ Hf) in H2.
+  destruct a, b; cbn in *; congruence.
+Qed.
+
+Lemma fset_beq_refl a : fset_beq a a = true.
+Proof.
+  unfold fset_beq.
+  assert (Hf : forall x, flt_beq x x = true) by (apply list_beq_refl; exact matcher_beq_refl).
+  rewrite !(list_beq_refl _ Hf). reflexivity.
+Qed.
+
+Lemma hname_eqb_eq a b : hname_eqb a b = true <-> a = b.
+Proof.
+  split.
+  - destruct a as [k t| | | | | | | |x], b as [k' t'| | | | | | | |y]; cbn; intros H; try discriminate; try reflexivity.
+    + apply andb_true_iff in H. destruct H as [H1 H2].
+      destruct k, k'; try discriminate; destruct t, t'; try discriminate; reflexivity.
+    + apply N.eqb_eq in H. congruence.
+  - intros <-. destruct a as [k t| | | | | | | |x]; cbn; try reflexivity.
+    + destruct k, t; reflexivity.
+    + apply N.eqb_refl.
+Qed.
+
+Lemma hname_eqb_sym a b : hname_eqb a b = hname_eqb b a.
+Proof.
+  destruct (hname_eqb a b) eqn:E1, (hname_eqb b a) eqn:E2; try reflexivity.
+  - apply hname_eqb_eq in E1. subst b. rewrite (proj2 (hname_eqb_eq a a) eq_refl) in E2. discriminate.
+  - apply hname_eqb_eq in E2. subst b. rewrite (proj2 (hname_eqb_eq a a) eq_refl) in E1. discriminate.
+Qed.
+
+(* ---------- _hooks as a function of the dispatcher list ---------- *)
+Definition hooks_of (ds : list dispatcher) (di : nat) (n : hname) : list N :=
+  match nth_error ds di with None => [] | Some d => hooks_get n (dp_hooks d) end.
+
+Lemma all_by_name_hooks_of st di n : all_by_name st di n = hooks_of (disps st) di n.
+Proof. reflexivity. Qed.
+
+Lemma hooks_get_append q n f l :
+  hooks_get q (hooks_append n f l) = if hname_eqb q n then hooks_get q l ++ [f] else hooks_get q l.
+Proof.
+  induction l as [|[m hs] l IH]; cbn [hooks_append hooks_get].
+  - destruct (hname_eqb q n); reflexivity.
+  - destruct (hname_eqb n m) eqn:Enm; cbn [hooks_get].
+    + apply hname_eqb_eq in Enm. subst m. destruct (hname_eqb q n); reflexivity.
+    + destruct (hname_eqb q m) eqn:Eqm; [|exact IH].
+      apply hname_eqb_eq in Eqm. subst m. rewrite hname_eqb_sym, Enm. reflexivity.
+Qed.
+
+Lemma map_upd_same {A B} (g : A -> B) i x x' l :
+  nth_error l i = Some x -> g x' = g x -> map g (upd i x' l) = map g l.
+Proof.
+  revert i; induction l as [|a l IH]; intros [|i] H E; cbn in *; try discriminate.
+  - inversion H; subst a. rewrite E. reflexivity.
+  - rewrite (IH i H E). reflexivity.
+Qed.
+
+Lemma nth_error_scopes ds di : nth_error (map dp_scope ds) di = option_map dp_scope (nth_error ds di).
+Proof. apply nth_error_map. Qed.
+
+Lemma register_on_scopes ds di f n : map dp_scope (snd (register_on ds di f n)) = map dp_scope ds.
+Proof.
+  unfold register_on. destruct (nth_error ds di) as [d|] eqn:Ed; [|reflexivity].
+  unfold register_with_name. destruct (validate_hook (dp_scope d) n f); cbn [snd];
+    apply (map_upd_same dp_scope _ d); auto; destruct d; reflexivity.
+Qed.
+
+Lemma upd_same_id {A} i (x : A) l : nth_error l i = Some x -> upd i x l = l.
+Proof. revert i; induction l as [|a l IH]; intros [|i] H; cbn in *; try discriminate; [congruence|]. rewrite (IH i H); reflexivity. Qed.
+
+(* register_hook_with_name on dispatcher di: appended under that name iff _validate_hook accepts *)
+Lemma register_on_hooks ds di f n dj m :
+  hooks_of (snd (register_on ds di f n)) dj m
+  = if accepted (map dp_scope ds) di n f && (Nat.eqb dj di && hname_eqb m n)
+    then hooks_of ds dj m ++ [h_id f] else hooks_of ds dj m.
+Proof.
+  unfold register_on, accepted. rewrite nth_error_scopes.
+  destruct (nth_error ds di) as [d|] eqn:Ed; cbn [option_map]; [|reflexivity].
+  unfold register_with_name.
+  destruct (validate_hook (dp_scope d) n f) eqn:Ev; cbn [snd andb];
+    try (rewrite (upd_same_id _ _ _ Ed); reflexivity).
+  unfold hooks_of. destruct (Nat.eqb_spec dj di) as [->|Hne]; cbn [andb].
+  - rewrite (nth_error_upd_same _ _ _ _ Ed), Ed. cbn [dp_hooks]. apply hooks_get_append.
+  - rewrite nth_error_upd_other by congruence. reflexivity.
+Qed.
+
+(* ---------- the ledger side of the same operations ---------- *)
+Lemma ledger_filter_app p (lg : list entry) e :
+  map e_fn (filter p (lg ++ [e])) = map e_fn (filter p lg) ++ (if p e then [e_fn e] else []).
+Proof. rewrite filter_app, map_app. cbn [filter]. destruct (p e); reflexivity. Qed.
+
+Lemma ledger_add_hooks scopes ds lg di n f w :
+  map dp_scope ds = scopes ->
+  (forall dj m, hooks_of ds dj m = map e_fn (filter (entry_on dj m) lg)) ->
+  forall dj m, hooks_of (snd (register_on ds di f n)) dj m
+               = map e_fn (filter (entry_on dj m) (ledger_add scopes lg di n f w)).
+Proof.
+  intros Hs H dj m. rewrite register_on_hooks, Hs. unfold ledger_add.
+  destruct (accepted scopes di n f); cbn [andb]; [|apply H].
+  rewrite ledger_filter_app. unfold entry_on at 2. cbn [e_disp e_name e_fn].
+  destruct (Nat.eqb dj di && hname_eqb m n); [rewrite H; reflexivity | rewrite app_nil_r; apply H].
+Qed.
+
+Lemma filter_twice {A} (p q : A -> bool) l : filter p (filter q l) = filter (fun x => q x && p x) l.
+Proof.
+  induction l as [|x l IH]; [reflexivity|]. cbn [filter]. destruct (q x); cbn [andb filter]; [|exact IH].
+  destruct (p x); rewrite IH; reflexivity.
+Qed.
+
+Lemma filter_map_comm {A B} (g : B -> bool) (h : A -> B) l : filter g (map h l) = map h (filter (fun x => g (h x)) l).
+Proof. induction l as [|x l IH]; [reflexivity|]. cbn [map filter]. destruct (g (h x)); cbn [map]; rewrite IH; reflexivity. Qed.
+
+Lemma ledger_unregister_hooks di f dj m (lg : list entry) :
+  map e_fn (filter (entry_on dj m) (filter (fun e => negb (Nat.eqb di (e_disp e) && N.eqb (e_fn e) f)) lg))
+  = if Nat.eqb dj di then filter (fun g => negb (N.eqb g f)) (map e_fn (filter (entry_on dj m) lg))
+    else map e_fn (filter (entry_on dj m) lg).
+Proof.
+  rewrite filter_twice. destruct (Nat.eqb_spec dj di) as [->|Hne].
+  - rewrite filter_map_comm, filter_twice. f_equal. apply filter_ext. intros e. unfold entry_on.
+    destruct (Nat.eqb di (e_disp e)), (N.eqb (e_fn e) f), (hname_eqb m (e_name e)); reflexivity.
+  - f_equal. apply filter_ext. intros e. unfold entry_on.
+    destruct (Nat.eqb_spec dj (e_disp e)) as [He|He]; cbn [andb].
+    + destruct (Nat.eqb_spec di (e_disp e)) as [He'|_]; [congruence|]. reflexivity.
+    + apply andb_false_r.
+Qed.
+
+Lemma ledger_unregister_all_hooks di dj m (lg : list entry) :
+  map e_fn (filter (entry_on dj m) (filter (fun e => negb (Nat.eqb di (e_disp e))) lg))
+  = if Nat.eqb dj di then [] else map e_fn (filter (entry_on dj m) lg).
+Proof.
+  rewrite filter_twice. destruct (Nat.eqb_spec dj di) as [->|Hne].
+  - replace (filter (fun x => negb (Nat.eqb di (e_disp x)) && entry_on di m x) lg) with (@nil entry); [reflexivity|].
+    symmetry. induction lg as [|e lg IH]; [reflexivity|]. cbn [filter]. unfold entry_on at 1.
+    destruct (Nat.eqb di (e_disp e)); cbn [negb andb]; exact IH.
+  - f_equal. apply filter_ext. intros e. unfold entry_on.
+    destruct (Nat.eqb_spec dj (e_disp e)) as [He|He]; cbn [andb].
+    + destruct (Nat.eqb_spec di (e_disp e)) as [He'|_]; [congruence|]. reflexivity.
+    + apply andb_false_r.
+Qed.
+
+(* ---------- what one step of the code does to the dispatchers and to the closures' dispatcher ---------- *)
+Definition disps_after (st : state) (o : op) : list dispatcher :=
+  match o with
+  | ORegFn ri f =>
+      match nth_error (regs st) ri with
+      | Some r => if r_used r && nonfilterable (h_name f) then disps st
+                  else snd (register_on (disps st) (r_disp r) f (h_name f))
+      | None => disps st
+      end
+  | ODecApply di f =>
+      match nth_error (decs st) di with
+      | Some d => match nth_error (regs st) (d_reg d) with
+                  | Some r => if r_used r && nonfilterable (d_name d) then disps st
+                              else snd (register_on (disps st) (r_disp r) f (d_name d))
+                  | None => disps st
+                  end
+      | None => disps st
+      end
+  | ODirect di f n => snd (register_on (disps st) di f n)
+  | OUnregister di f =>
+      match nth_error (disps st) di with Some d => upd di (unregister_in f d) (disps st) | None => disps st end
+  | OUnregisterAll di =>
+      match nth_error (disps st) di with Some d => upd di (unregister_all_in d) (disps st) | None => disps st end
+  | OFilter _ _ _ | ORegName _ _ | ODecFilter _ _ _ => disps st
+  end.
+
+Lemma do_filter_disps st ri r t inc c : disps (fst (do_filter st ri r t inc c)) = disps st.
+Proof. unfold do_filter, set_reg. destruct (add_filter inc c (hp (heap st) t)); reflexivity. Qed.
+
+Lemma do_filter_regs st ri r t inc c :
+  regs (fst (do_filter st ri r t inc c))
+  = upd ri {| r_disp := r_disp r; r_used := true; r_cur := r_cur r; r_proxy := r_proxy r |} (regs st).
+Proof. unfold do_filter, set_reg. destruct (add_filter inc c (hp (heap st) t)); reflexivity. Qed.
+
+Lemma step_disps st o : disps (fst (step st o)) = disps_after st o.
+Proof.
+  unfold step. destruct o as [ri inc c|ri f|ri n|di inc c|di f|di f n|di f|di]; cbn [step_gen disps_after].
+  - destruct (nth_error (regs st) ri) as [r|]; [apply do_filter_disps | reflexivity].
+  - destruct (nth_error (regs st) ri) as [r|]; [|reflexivity].
+    destruct (r_used r && nonfilterable (h_name f)); [reflexivity|].
+    destruct (register_on (disps st) (r_disp r) f (h_name f)) as [out ds']. reflexivity.
+  - destruct (nth_error (regs st) ri) as [r|]; [|reflexivity].
+    destruct (r_used r && nonfilterable n); reflexivity.
+  - destruct (nth_error (decs st) di) as [d|]; [|reflexivity].
+    destruct (nth_error (regs st) (d_reg d)) as [r|]; [apply do_filter_disps | reflexivity].
+  - destruct (nth_error (decs st) di) as [d|]; [|reflexivity].
+    destruct (nth_error (regs st) (d_reg d)) as [r|]; [|reflexivity].
+    destruct (r_used r && nonfilterable (d_name d)); [reflexivity|].
+    destruct (register_on (disps st) (r_disp r) f (d_name d)) as [out ds']. reflexivity.
+  - destruct (register_on (disps st) di f n) as [out ds']. reflexivity.
+  - destruct (nth_error (disps st) di); reflexivity.
+  - destruct (nth_error (disps st) di); reflexivity.
+Qed.
+
+Lemma upd_disp_kept ri (r r' : registrar) rs j x :
+  nth_error rs ri = Some r -> r_disp r' = r_disp r -> nth_error (upd ri r' rs) j = Some x ->
+  exists y, nth_error rs j = Some y /\ r_disp y = r_disp x.
+Proof.
+  intros Hr Hd Hj. destruct (upd_cases _ _ _ _ _ _ Hr Hj) as [[-> ->]|[_ Hj']]; eauto.
+Qed.
+
+(* no step changes the dispatcher a closure registers on *)
+Lemma step_regs_disp st o j x :
+  nth_error (regs (fst (step st o))) j = Some x -> exists y, nth_error (regs st) j = Some y /\ r_disp y = r_disp x.
+Proof.
+  unfold step. destruct o as [ri inc c|ri f|ri n|di inc c|di f|di f n|di f|di]; cbn [step_gen].
+  - destruct (nth_error (regs st) ri) as [r|] eqn:Er; [|eauto].
+    rewrite do_filter_regs. intros H. eapply upd_disp_kept; [exact Er | | exact H]. reflexivity.
+  - destruct (nth_error (regs st) ri) as [r|] eqn:Er; [|eauto].
+    destruct (r_used r && nonfilterable (h_name f)); [eauto|].
+    destruct (register_on (disps st) (r_disp r) f (h_name f)) as [out ds']. cbn [fst regs].
+    intros H. eapply upd_disp_kept; [exact Er | | exact H]. reflexivity.
+  - destruct (nth_error (regs st) ri) as [r|] eqn:Er; [|eauto].
+    destruct (r_used r && nonfilterable n); [eauto|]. cbn [fst regs].
+    intros H. eapply upd_disp_kept; [exact Er | | exact H]. reflexivity.
+  - destruct (nth_error (decs st) di) as [d|]; [|eauto].
+    destruct (nth_error (regs st) (d_reg d)) as [r|] eqn:Er; [|eauto].
+    rewrite do_filter_regs. intros H. eapply upd_disp_kept; [exact Er | | exact H]. reflexivity.
+  - destruct (nth_error (decs st) di) as [d|]; [|eauto].
+    destruct (nth_error (regs st) (d_reg d)) as [r|]; [|eauto].
+    destruct (r_used r && nonfilterable (d_name d)); [eauto|].
+    destruct (register_on (disps st) (r_disp r) f (d_name d)) as [out ds']. cbn [fst regs]. eauto.
+  - destruct (register_on (disps st) di f n) as [out ds']. cbn [fst regs]. eauto.
+  - destruct (nth_error (disps st) di); cbn [fst regs]; eauto.
+  - destruct (nth_error (disps st) di); cbn [fst regs]; eauto.
+Qed.
+
+(* ---------- lock-step invariant: code state, specification state, ledger ---------- *)
+Record LInv (scopes : list scope) (closures : list nat) (st : state) (ss : sstate) (lg : list entry) : Prop := {
+  L_inv : InvS st ss;
+  L_scopes : map dp_scope (disps st) = scopes;
+  L_clos : forall ri r, nth_error (regs st) ri = Some r -> nth_error closures ri = Some (r_disp r);
+  L_hooks : forall di n, hooks_of (disps st) di n = map e_fn (filter (entry_on di n) lg)
+}.
+
+Lemma hooks_of_unregister ds di d f dj m :
+  nth_error ds di = Some d ->
+  hooks_of (upd di (unregister_in f d) ds) dj m
+  = if Nat.eqb dj di then filter (fun g => negb (N.eqb g f)) (hooks_of ds dj m) else hooks_of ds dj m.
+Proof.
+  intros Ed. unfold hooks_of. destruct (Nat.eqb_spec dj di) as [->|Hne].
+  - rewrite (nth_error_upd_same _ _ _ _ Ed), Ed. cbn [unregister_in dp_hooks]. apply hooks_get_unregister.
+  - rewrite nth_error_upd_other by congruence. reflexivity.
+Qed.
+
+Lemma hooks_of_unregister_all ds di d dj m :
+  nth_error ds di = Some d ->
+  hooks_of (upd di (unregister_all_in d) ds) dj m = if Nat.eqb dj di then [] else hooks_of ds dj m.
+Proof.
+  intros Ed. unfold hooks_of. destruct (Nat.eqb_spec dj di) as [->|Hne].
+  - rewrite (nth_error_upd_same _ _ _ _ Ed). reflexivity.
+  - rewrite nth_error_upd_other by congruence. reflexivity.
+Qed.
+
+Lemma step_linv scopes closures st ss lg o :
+  LInv scopes closures st ss lg ->
+  LInv scopes closures (fst (step st o)) (spec_step ss o) (ledger_step scopes closures ss lg o).
+Proof.
+  intros [HI Hsc Hcl Hh]. pose proof HI as [Hlr Hld Hreg Hdec _ _ _ _].
+  constructor.
+  - apply step_inv; exact HI.
+  - rewrite step_disps. destruct o as [ri inc c|ri f|ri n|di inc c|di f|di f n|di f|di]; cbn [disps_after]; try exact Hsc.
+    + destruct (nth_error (regs st) ri) as [r|]; [|exact Hsc].
+      destruct (r_used r && nonfilterable (h_name f)); [exact Hsc|]. rewrite register_on_scopes; exact Hsc.
+    + destruct (nth_error (decs st) di) as [d|]; [|exact Hsc].
+      destruct (nth_error (regs st) (d_reg d)) as [r|]; [|exact Hsc].
+      destruct (r_used r && nonfilterable (d_name d)); [exact Hsc|]. rewrite register_on_scopes; exact Hsc.
+    + rewrite register_on_scopes; exact Hsc.
+    + destruct (nth_error (disps st) di) as [d|] eqn:Ed; [|exact Hsc].
+      rewrite (map_upd_same dp_scope _ d); auto.
+    + destruct (nth_error (disps st) di) as [d|] eqn:Ed; [|exact Hsc].
+      rewrite (map_upd_same dp_scope _ d); auto.
+  - intros ri r Hr. destruct (step_regs_disp _ _ _ _ Hr) as (y & Hy & <-). exact (Hcl ri y Hy).
+  - intros dj m. rewrite step_disps.
+    destruct o as [ri inc c|ri f|ri n|di inc c|di f|di f n|di f|di]; cbn [disps_after ledger_step]; try apply Hh.
+    + (* ORegFn *)
+      destruct (nth_error (regs st) ri) as [r|] eqn:Er.
+      * destruct (nth_error_some_len _ (s_regs ss) _ _ Hlr Er) as (s & Es). rewrite Es, (Hcl ri r Er).
+        destruct (Hreg ri r s Er Es) as (Hu & _). rewrite <- Hu.
+        destruct (r_used r && nonfilterable (h_name f)); [apply Hh|].
+        apply ledger_add_hooks; assumption.
+      * rewrite (nth_error_none_len _ (s_regs ss) _ Hlr Er). apply Hh.
+    + (* ODecApply *)
+      destruct (nth_error (decs st) di) as [d|] eqn:Ed.
+      * destruct (nth_error_some_len _ (s_decs ss) _ _ Hld Ed) as (sd & Esd). rewrite Esd.
+        destruct (Hdec di d sd Ed Esd) as (Hdr & Hdn & _). rewrite <- Hdr, <- Hdn.
+        destruct (nth_error (regs st) (d_reg d)) as [r|] eqn:Er.
+        -- destruct (nth_error_some_len _ (s_regs ss) _ _ Hlr Er) as (s & Es). rewrite Es, (Hcl _ r Er).
+           destruct (Hreg _ r s Er Es) as (Hu & _). rewrite <- Hu.
+           destruct (r_used r && nonfilterable (d_name d)); [apply Hh|].
+           apply ledger_add_hooks; assumption.
+        -- rewrite (nth_error_none_len _ (s_regs ss) _ Hlr Er). apply Hh.
+      * rewrite (nth_error_none_len _ (s_decs ss) _ Hld Ed). apply Hh.
+    + (* ODirect *) apply ledger_add_hooks; assumption.
+    + (* OUnregister *)
+      rewrite ledger_unregister_hooks, <- Hh.
+      destruct (nth_error (disps st) di) as [d|] eqn:Ed; [apply hooks_of_unregister; exact Ed|].
+      destruct (Nat.eqb_spec dj di) as [->|_]; [|reflexivity]. unfold hooks_of. rewrite Ed. reflexivity.
+    + (* OUnregisterAll *)
+      rewrite ledger_unregister_all_hooks, <- Hh.
+      destruct (nth_error (disps st) di) as [d|] eqn:Ed; [apply hooks_of_unregister_all; exact Ed|].
+      destruct (Nat.eqb_spec dj di) as [->|_]; [|reflexivity]. unfold hooks_of. rewrite Ed. reflexivity.
+Qed.
+
+Lemma init_regs_disp closures : forall s i r,
+  nth_error (map (fun '(i, d) => {| r_disp := d; r_used := false; r_cur := i; r_proxy := i |})
+                 (combine (seq s (length closures)) closures)) i = Some r ->
+  nth_error closures i = Some (r_disp r).
+Proof.
+  induction closures as [|c cl IH]; intros s i r H; cbn in H.
+  - destruct i; discriminate.
+  - destruct i as [|i]; cbn in H.
+    + inversion H; subst r; reflexivity.
+    + exact (IH (S s) i r H).
+Qed.
+
+Lemma init_linv scopes closures : LInv scopes closures (init scopes closures) (spec_init closures) [].
+Proof.
+  constructor.
+  - apply init_inv.
+  - unfold init; cbn [disps]. rewrite map_map. cbn [dp_scope]. apply map_id.
+  - unfold init; cbn [regs]. intros ri r H. exact (init_regs_disp _ _ _ _ H).
+  - intros di n. unfold init, hooks_of; cbn [disps filter map].
+    destruct (nth_error (map (fun s => {| dp_scope := s; dp_hooks := [] |}) scopes) di) as [d|] eqn:E; [|reflexivity].
+    apply nth_error_In in E. apply in_map_iff in E. destruct E as (x & <- & _). reflexivity.
+Qed.
+
+Lemma ledger_from_fst scopes closures ops : forall ss lg,
+  fst (ledger_from scopes closures ss lg ops) = fold_left spec_step ops ss.
+Proof. induction ops as [|o ops IH]; intros ss lg; [reflexivity|]. cbn [ledger_from fold_left]. apply IH. Qed.
+
+Lemma run_linv scopes closures ops : forall st ss lg,
+  LInv scopes closures st ss lg ->
+  LInv scopes closures (fst (run_gen true st ops)) (fold_left spec_step ops ss) (snd (ledger_from scopes closures ss lg ops)).
+Proof.
+  induction ops as [|o ops IH]; intros st ss lg H; [exact H|].
+  rewrite fst_run_cons. cbn [fold_left ledger_from]. apply IH. apply step_linv. exact H.
+Qed.
+
+Lemma ledger_linv scopes closures ops :
+  LInv scopes closures (fst (run scopes closures ops)) (spec_run closures ops) (ledger scopes closures ops).
+Proof. unfold run, spec_run, ledger. apply run_linv. apply init_linv. Qed.
+
+(* C19_ledger_is_hooks: the ledger (specification-side bookkeeping) lists exactly what _hooks holds, in order *)
+Lemma ledger_is_hooks scopes closures ops di n :
+  all_by_name (fst (run scopes closures ops)) di n = map e_fn (filter (entry_on di n) (ledger scopes closures ops)).
+Proof. rewrite all_by_name_hooks_of. apply (L_hooks _ _ _ _ _ (ledger_linv scopes closures ops)). Qed.
+
+Lemma fset_match_empty o : fset_match fs_empty o = true.
+Proof. reflexivity. Qed.
+
+Lemma should_skip_opt st f ctx :
+  should_skip st f ctx = match ctx with Some o => negb (fset_match (opt_fs (filter_of st f)) o) | None => false end.
+Proof. unfold should_skip. destruct (filter_of st f), ctx; reflexivity. Qed.
+
+(* a registration whose chain is the chain its function carries now is skipped exactly where its own chain says *)
+Lemma current_entry_own_chain scopes closures ops e ctx :
+  entry_current (spec_run closures ops) e = true ->
+  should_skip (fst (run scopes closures ops)) (e_fn e) ctx = negb (entry_selects (spec_run closures ops) e ctx).
+Proof.
+  unfold entry_current. intros H. apply fset_beq_eq in H.
+  rewrite should_skip_opt, hook_gets_own_filter, <- H. destruct ctx; reflexivity.
+Qed.
+
+Lemma fired_current st ss ctx di n (lg : list entry) :
+  (forall e, entry_current ss e = true -> should_skip st (e_fn e) ctx = negb (entry_selects ss e ctx)) ->
+  forallb (entry_current ss) (filter (entry_on di n) lg) = true ->
+  fired st ctx (map e_fn (filter (entry_on di n) lg))
+  = map e_fn (filter (fun e => entry_on di n e && entry_selects ss e ctx) lg).
+Proof.
+  intros Hs. unfold fired. induction lg as [|e lg IH]; [reflexivity|]. cbn [filter].
+  destruct (entry_on di n e); cbn [andb]; [|exact IH].
+  cbn [forallb map filter]. intros H. apply andb_true_iff in H. destruct H as [Hc Hr].
+  rewrite (Hs e Hc), negb_involutive. destruct (entry_selects ss e ctx); cbn [map]; rewrite (IH Hr); reflexivity.
+Qed.
+
+(* C19_each_registration_own_chain_partial *)
+Lemma each_registration_own_chain scopes closures ops di n ctx :
+  forallb (entry_current (spec_run closures ops)) (filter (entry_on di n) (ledger scopes closures ops)) = true ->
+  dispatch (fst (run scopes closures ops)) di n ctx
+  = spec_dispatch (spec_run closures ops) (ledger scopes closures ops) di n ctx.
+Proof.
+  intros H. unfold dispatch, spec_dispatch. rewrite ledger_is_hooks.
+  apply fired_current; [|exact H]. intros e He. apply current_entry_own_chain. exact He.
+Qed.
+
+Lemma each_registration_own_chain_container scopes closures ops di t ctx :
+  (forall k, forallb (entry_current (spec_run closures ops))
+                     (filter (entry_on di (NGen k t)) (ledger scopes closures ops)) = true) ->
+  apply_to_container (fst (run scopes closures ops)) di t ctx
+  = spec_apply_to_container (spec_run closures ops) (ledger scopes closures ops) di t ctx.
+Proof.
+  intros H. unfold apply_to_container, spec_apply_to_container.
+  apply flat_map_ext. intros k. f_equal. apply (each_registration_own_chain scopes closures ops di (NGen k t) ctx (H k)).
+Qed.
+
+(* the seed scenario as a theorem: after ANY history - the function registered before with filters, on any closure, in any
+   form, unregistered or not - an unfiltered registration on a closure with nothing pending applies everywhere *)
+Lemma unfiltered_reregistration_function_form scopes closures pre ri f ctx :
+  closure_clean (spec_run closures pre) ri = true ->
+  should_skip (fst (run scopes closures (pre ++ [ORegFn ri f]))) (h_id f) ctx = false.
+Proof.
+  intros H. pose proof (function_form_expression scopes closures pre ri [] f H (or_introl eq_refl)) as E.
+  cbn [filter_ops map app] in E. unfold should_skip. rewrite E. destruct ctx; reflexivity.
+Qed.
+
+Lemma unfiltered_reregistration_named_form scopes closures pre ri n f ctx :
+  closure_clean (spec_run closures pre) ri = true ->
+  let d := length (s_decs (spec_run closures pre)) in
+  should_skip (fst (run scopes closures (pre ++ [ORegName ri n; ODecApply d f]))) (h_id f) ctx = false.
+Proof.
+  intros Hclean d. unfold should_skip. rewrite hook_gets_own_filter. unfold spec_run.
+  rewrite fold_left_app. fold (spec_run closures pre). cbn [fold_left].
+  unfold closure_clean in Hclean. destruct (nth_error (s_regs (spec_run closures pre)) ri) as [r|] eqn:Er; [|discriminate].
+  apply andb_true_iff in Hclean. destruct Hclean as [Hu He]. apply negb_true_iff in Hu.
+  assert (Hp : s_pending r = fs_empty).
+  { unfold fs_is_empty in He. destruct r as [u [i e]]; cbn in *. destruct i, e; try discriminate; reflexivity. }
+  cbn [spec_step]. rewrite Er, Hu. cbn [andb s_decs s_regs].
+  fold d. rewrite nth_error_app2, Nat.sub_diag by (subst d; lia). cbn [nth_error sd_reg sd_name].
+  rewrite (nth_error_upd_same _ _ _ _ Er). cbn [s_used andb].
+  unfold own_chain; cbn [s_attr s_decs slookup]. rewrite N.eqb_refl.
+  rewrite nth_error_app2, Nat.sub_diag by (subst d; lia). cbn [nth_error sd_val]. rewrite Hp.
+  destruct ctx; reflexivity.
+Qed.
+
+(* the entry a function-form registration appends is current right after it (the region is reached by every registration) *)
+Example reregistration_example :
+  let ops := [OFilter 0 true (call_method sGET); ORegFn 0 f_map_query; OUnregister 0 21%N; ORegFn 0 f_map_query;
+              ORegFn 1 f_map_query; ORegName 1 (NGen KMap THeaders); ODecApply 0 f_map_query] in
+  let ss := spec_run [0; 1] ops in
+  let lg := ledger [Global; Schema] [0; 1] ops in
+  map (fun e => (e_disp e, e_fn e, entry_current ss e)) lg = [(0, 21%N, true); (1, 21%N, true); (1, 21%N, true)] /\
+  dispatch (fst (run [Global; Schema] [0; 1] ops)) 0 (NGen KMap TQuery) (Some op_post) = [21%N] /\
+  spec_dispatch ss lg 0 (NGen KMap TQuery) (Some op_post) = [21%N] /\
+  spec_dispatch ss lg 1 (NGen KMap THeaders) (Some op_post) = [21%N].
+Proof. vm_compute. repeat split; reflexivity. Qed.
+
+(* F5 in terms of registrations: [apply_to GET; g.register f; s.register f] - the first registration is not current
+   any more (its function was registered again without filters) and fires for POST although its own chain says GET only *)
+Lemma each_registration_own_chain_refuted :
+  let ops := [OFilter 0 true (call_method sGET); ORegFn 0 f_flatmap_headers; ORegFn 1 f_flatmap_headers] in
+  let ss := spec_run [0; 1] ops in
+  let lg := ledger [Global; Schema] [0; 1] ops in
+  map (entry_current ss) lg = [false; true] /\
+  dispatch (fst (run [Global; Schema] [0; 1] ops)) 0 (NGen KFlatmap THeaders) (Some op_post) = [3%N] /\
+  spec_dispatch ss lg 0 (NGen KFlatmap THeaders) (Some op_post) = [].
+Proof. vm_compute. repeat split; reflexivity. Qed.
+
+(* ... and the other direction: a registration without any filter expression (HookDispatcher.apply) of a function that
+   carries the filters of an earlier registration is skipped where that stale chain says *)
+Lemma direct_registration_inherits_refuted :
+  let ops := [OFilter 0 true (call_method sGET); ORegFn 0 f_flatmap_headers; OUnregister 0 3%N;
+              ODirect 1 f_flatmap_headers (NGen KFlatmap THeaders)] in
+  let ss := spec_run [0; 1] ops in
+  let lg := ledger [Global; Schema] [0; 1] ops in
+  map (entry_current ss) lg = [false] /\
+  dispatch (fst (run [Global; Schema] [0; 1] ops)) 1 (NGen KFlatmap THeaders) (Some op_post) = [] /\
+  spec_dispatch ss lg 1 (NGen KFlatmap THeaders) (Some op_post) = [3%N].
+Proof. vm_compute. repeat split; reflexivity. Qed.
+
+Lemma each_registration_own_chain_refuted_neq :
+  dispatch (fst (run [Global; Schema] [0; 1] [OFilter 0 true (call_method sGET); ORegFn 0 f_flatmap_headers; ORegFn 1 f_flatmap_headers]))
+           0 (NGen KFlatmap THeaders) (Some op_post)
+  <> spec_dispatch (spec_run [0; 1] [OFilter 0 true (call_method sGET); ORegFn 0 f_flatmap_headers; ORegFn 1 f_flatmap_headers])
+                   (ledger [Global; Schema] [0; 1] [OFilter 0 true (call_method sGET); ORegFn 0 f_flatmap_headers; ORegFn 1 f_flatmap_headers])
+                   0 (NGen KFlatmap THeaders) (Some op_post).
+Proof. destruct each_registration_own_chain_refuted as (_ & H1 & H2). rewrite H1, H2. discriminate. Qed.
+
+Definition hist_direct : list op :=
+  [OFilter 0 true (call_method sGET); ORegFn 0 f_flatmap_headers; OUnregister 0 3%N; ODirect 1 f_flatmap_headers (NGen KFlatmap THeaders)].
+
+Lemma direct_registration_inherits_refuted_neq :
+  dispatch (fst (run [Global; Schema] [0; 1] hist_direct)) 1 (NGen KFlatmap THeaders) (Some op_post) = [] /\
+  spec_dispatch (spec_run [0; 1] hist_direct) (ledger [Global; Schema] [0; 1] hist_direct) 1 (NGen KFlatmap THeaders) (Some op_post) <> [].
+Proof. destruct direct_registration_inherits_refuted as (_ & H1 & H2). split; [exact H1 | unfold hist_direct; rewrite H2; discriminate]. Qed.
